@@ -145,6 +145,10 @@ struct Machine {
     late_next: usize,
     real_limit: Option<u64>,
     stack_start: Option<u64>,
+    /// the host called stop() between two steps
+    host_stopped: bool,
+    /// copies of the machine the host took mid-run and set aside (kept alive until the run ends)
+    clones: Vec<Axecutor>,
 }
 
 fn install_dispatch(host: &Rc<RefCell<Host>>) {
@@ -332,6 +336,8 @@ fn build(sc: &Sc, rng_seed: u64, set_limit: bool) -> Result<Machine, String> {
         late_next: 0,
         real_limit: sc.limit,
         stack_start: None,
+        host_stopped: false,
+        clones: Vec::new(),
     };
     let r: Result<Result<(), String>, Panicked> = catch(|| {
         if let Some(len) = sc.stack_len {
@@ -453,6 +459,42 @@ fn apply_actions(sc: &Sc, m: &mut Machine, done: &mut Vec<bool>, ctx: &mut Ctx, 
                 ctx.event("host:resize_code", &format!("{:?}", matches!(r, Ok(Ok(())))));
                 if matches!(r, Ok(Ok(()))) {
                     ctx.fault("code_area_resized");
+                }
+            }
+            "stop" => {
+                // the host stops the machine between two steps: the run is over, no later instruction executes
+                let r = catch(|| m.ax.stop());
+                ctx.event("host:stop", &format!("{}", r.is_ok()));
+                if r.is_ok() {
+                    m.host_stopped = true;
+                    ctx.fault("host_stop_between_steps");
+                }
+            }
+            "clone_register" => {
+                // the host takes a copy of the machine, registers hooks on the *copy* (for every mnemonic the
+                // original has hooks for, and the one named by the action) and sets the copy aside. None of
+                // those hooks was registered on the machine under test: none may ever run there
+                if let Ok(mut c) = catch(|| m.ax.clone()) {
+                    let mut names: Vec<String> = m.reg.before.keys().chain(m.reg.after.keys()).cloned().collect();
+                    if let Some(h) = a.hook.as_ref() {
+                        names.push(h.mnemonic.clone());
+                    }
+                    names.sort();
+                    names.dedup();
+                    let mut n = 0;
+                    for nm in names {
+                        if let Some((_, sm)) = supported_by_name(&nm) {
+                            if matches!(catch(|| c.hook_before_mnemonic_native(sm, crate::hooks::foreign_ref())), Ok(Ok(()))) {
+                                n += 1;
+                            }
+                            if matches!(catch(|| c.hook_after_mnemonic_native(sm, crate::hooks::foreign_ref())), Ok(Ok(()))) {
+                                n += 1;
+                            }
+                        }
+                    }
+                    ctx.event("host:clone_register", &format!("{n}"));
+                    ctx.fault("machine_cloned_midrun");
+                    m.clones.push(c);
                 }
             }
             "prot" => {
@@ -773,7 +815,8 @@ fn drive_step(sc: &Sc, rng_seed: u64, ctx: &mut Ctx, oracles: bool, record_diges
                 }
             }
         }
-        let must_fail = pre_fin || limit_reached;
+        let host_stop = m.host_stopped && !pre_fin;
+        let must_fail = pre_fin || limit_reached || m.host_stopped;
         let obs_before_fail = if must_fail && oracles { Some(observe(&m.ax)) } else { None };
         let log_start = m.host.borrow().log.len();
         // ---- the step ----
@@ -789,6 +832,10 @@ fn drive_step(sc: &Sc, rng_seed: u64, ctx: &mut Ctx, oracles: bool, record_diges
         steps += 1;
         ctx.guest_steps += 1;
         ctx.nontrivial = true;
+        let foreign = crate::hooks::take_foreign_calls();
+        if foreign > 0 && oracles {
+            ctx.dev("C12", "C12|foreign_hook_invoked".into(), format!("{foreign} invocation(s) of a hook that was registered on a copy of the machine, never on this one, during the step at {pre_rip:#x} ({mn_name})"));
+        }
         let post_count = m.ax.verif_executed();
         let post_rip = m.ax.reg_read_64(SupportedRegister::RIP).unwrap_or(0);
         let post_fin = m.ax.verif_finished();
@@ -830,7 +877,16 @@ fn drive_step(sc: &Sc, rng_seed: u64, ctx: &mut Ctx, oracles: bool, record_diges
         if must_fail {
             // C11: after finishing / at the limit a step fails and changes nothing
             if oracles {
-                let what = if pre_fin { "after=finish" } else { "after=limit" };
+                let what = if pre_fin {
+                    "after=finish"
+                } else if host_stop {
+                    "after=host_stop"
+                } else {
+                    "after=limit"
+                };
+                if host_stop && (matches!(out, StepOut::Ok(_)) || m.ax.verif_executed() != pre_count) {
+                    ctx.dev("C12", "C12|host_stop|later_instruction_executed".into(), format!("the host called stop() between two steps, yet the next step() executed {mn_name} at {pre_rip:#x} (count {pre_count} -> {})", m.ax.verif_executed()));
+                }
                 match &out {
                     StepOut::Err(_) => {}
                     StepOut::Ok(_) => ctx.dev("C11", format!("C11|step_after_end|accepted|{what}"), format!("step() returned Ok although {what}; count {pre_count}")),
@@ -841,17 +897,17 @@ fn drive_step(sc: &Sc, rng_seed: u64, ctx: &mut Ctx, oracles: bool, record_diges
                         ctx.dev("C11", format!("C11|step_after_end|state_changed:{d}|{what}"), format!("the failing step changed {d}"));
                     }
                 }
-                if !pre_fin && m.real_limit.map(|l| pre_count != l).unwrap_or(false) {
+                if !pre_fin && !host_stop && m.real_limit.map(|l| pre_count != l).unwrap_or(false) {
                     ctx.dev("C11", "C11|limit|overshoot".into(), format!("limit {:?} but count {pre_count}", m.real_limit));
                 }
             }
             if let StepOut::Err(t) = &out {
                 errors.push(t.clone());
             }
-            if limit_reached && !pre_fin {
+            if limit_reached && !pre_fin && !host_stop {
                 ctx.fault("limit_reached");
             }
-            end = if pre_fin { End::Finished } else { End::Limit };
+            end = if pre_fin || host_stop { End::Finished } else { End::Limit };
             break;
         }
 
